@@ -32,7 +32,9 @@ CHECKS = {
         "Every complete builder program of a reduced plan x every single store mutation (thorough: a larger plan x single mutations, then the quick plan x pairs of mutations) - delete leaf, add "
         "attribute-rich nodes, order link, delete link, insert fragment, JSON metadata values, index reuse - is serialized, loaded and "
         "re-serialized; documents are compared as JSON values (type-strict: true/1/1.0 differ) and the observable structure through a "
-        "hierarchy-only numbering. Plus every size-ladder HUGR as built and after every single store mutation.",
+        "hierarchy-only numbering. Plus every size-ladder HUGR as built and after every single store mutation. Plus the other origin: the "
+        "loaded copy of every program / ladder HUGR is mutated (one mutation of each kind) and must round-trip, and the same mutation applied to "
+        "the built HUGR and to its loaded copy must leave both with the same observable structure (differential, no expected values).",
         "Trusted: comparison code in mc/checks/c02.py; set-like arrays (runtime_reqs, extension sets) compared as sets.",
         "DESIGN.md section 4 (C02)",
     ),
@@ -40,7 +42,8 @@ CHECKS = {
         E2 + " composed with store-mutation histories; published JSON schema + R2 port layout",
         "Same state space as C02; every emitted HUGR/package/extension document is validated against the published strict schema, R2's "
         "index rules, and the image of Hugr.links() under R2's port layout (static port after value inputs, order port after those). "
-        "Plus every size-ladder HUGR as built and after every single store mutation.",
+        "Plus every size-ladder HUGR as built and after every single store mutation; plus the document of the loaded copy of every program "
+        "after one mutation of each kind.",
         "Trusted: jsonschema + specification/schema/hugr_schema_strict_live.json; mc/ref/hugrjson.py port layout.",
         "DESIGN.md section 4 (C03)",
     ),
@@ -135,14 +138,14 @@ CHECKS = {
     "C11": (
         E3 + " x registry family (reference resolution by membership)",
         "150 (thorough 850) type expressions with opaque leaves nested in sums, function types (also inside sums), polymorphic bodies, type args, sequences and "
-        "args of opaque types, signatures with several runtime requirements, all-empty general sums x 85 registries (each of 2 extensions absent or holding any subset of its definitions); loaded HUGRs with 1-3 "
-        "opaque ops (owner/empty requirements, unknown extension, missing op); model export before/after; idempotence.",
+        "args of opaque types, signatures with several runtime requirements, all-empty general sums x 165 registries (each of 2 extensions absent or holding any subset of its definitions); loaded HUGRs with 1-3 "
+        "opaque ops (owner/empty requirements, unknown extension, missing op, a computed-signature definition with type / sequence / number arguments; signature and type arguments searched for opaque leftovers); model export before/after; idempotence.",
         "Trusted: expected_shape() in mc/checks/c11.py. Opaque inputs carry the bound their definition computes.",
         "DESIGN.md section 4 (C11)",
     ),
     "C12": (
         E2 + " (R6 model-scope walker)",
-        "Every complete module-rooted builder program of 6 module scenarios (nested DFGs, order edges, metadata, constants, calls incl. recursion / "
+        "Every complete module-rooted builder program of 7 module scenarios (late declarations = forward references to a declaration, nested DFGs, order edges, metadata, constants, calls incl. recursion / "
         "polymorphic / row-polymorphic callees, function values, conditionals, loops, CFGs with merges and back edges): Hugr.to_model() is walked in "
         "parallel with the HUGR; region structure, listed ports, link-name partition vs connectivity, symbols, inlined constants, order hints, "
         "metadata (type-strict); model dataclass fields vs the getattr() calls of python.rs; plus every module-hosted size-ladder HUGR.",
@@ -175,7 +178,7 @@ CHECKS = {
     ),
     "C20": (
         E2 + " monitor (R9 DOT reader) x configuration product",
-        "Every complete builder program of the plan, as built x 7 render configurations and after one store mutation of each kind (thorough: a larger plan, then the quick plan after every single mutation): the DOT source is "
+        "Every complete builder program of the plan, as built x 7 render configurations and after one store mutation of each kind (thorough: a larger plan, then the quick plan after every single mutation), plus the loaded copy of every program as read and after insert-then-link / delete-then-add: the DOT source is "
         "parsed and node statements, port cells, cluster nesting, edge statements and value labels are compared with the HUGR's public queries; "
         "HUGR unchanged; outputs equal across configurations modulo colours and extension prefix; plus size ladders (nodes with n ports, n links on "
         "a port, n chained siblings, and the shared ladder families).",
